@@ -459,7 +459,7 @@ func (p *parent) runJob(j job) []job {
 	}
 	if j.confirm || j.to-j.from == 1 {
 		v := Violation{Property: p.chk.ID, Suite: j.suite.Name, Idx: idx, Seed: p.seed, Tier: p.tier,
-			Class: class, Sig: sig, Detail: tail(string(stderrB), 4000), Case: desc, Tags: tagsFromDesc(desc)}
+			Class: class, Sig: sig, Detail: headTail(string(stderrB), 2500, 1500), Case: desc, Tags: tagsFromDesc(desc)}
 		p.mu.Lock()
 		p.violations = append(p.violations, v)
 		p.deaths++
@@ -512,6 +512,16 @@ func head(s string, n int) string {
 		return s[:n] + "…"
 	}
 	return s
+}
+
+// headTail keeps the first h and the last t bytes of a worker's stderr: a Go
+// runtime fatal error names its cause and the faulting frames at the top and
+// dumps every other goroutine after it.
+func headTail(s string, h, t int) string {
+	if len(s) <= h+t {
+		return s
+	}
+	return s[:h] + "\n…\n" + s[len(s)-t:]
 }
 
 func classifyDeath(stderr string, hang bool) (class, sig string) {
